@@ -220,7 +220,7 @@ pub fn c13_t_g2_repeat2<S: Src>(s: &mut S) {
 }
 
 /// larger coordinates: the arithmetic inside contains must not overflow or truncate differently
-pub fn c13_t_g2_tri_large<S: Src>(s: &mut S) {
+pub fn c13_x_g2_tri_large<S: Src>(s: &mut S) {
     let lim = 1i64 << 20;
     let mut p = [(0i64, 0i64); 3];
     let mut i = 0;
@@ -361,7 +361,7 @@ harnesses! { k, "sel_c13.rs";
     #[kani::unwind(6)] c13_t_g2_repeat0;
     #[kani::unwind(6)] c13_q_g2_repeat1;
     #[kani::unwind(6)] c13_t_g2_repeat2;
-    #[kani::unwind(5)] c13_t_g2_tri_large;
+    #[kani::unwind(5)] c13_x_g2_tri_large;
     c13_q_g1_rect;
     #[kani::unwind(7)] c13_q_bbox;
     #[kani::unwind(4)] c13_q_g3_path2;
